@@ -601,8 +601,10 @@ def file_assembly(run, repo):
             def snap(f):
                 def g(I_, obj, a, k):
                     seen_ids.append([r.attrs.get('id') for r in rx] + [x.attrs.get('name') for x in li])
+                    seen_bnames.append([b_.attrs.get('name') for b_ in beps])
                     return f(I_, obj, a, k)
                 return g
+            seen_bnames = []
             ph.opaque_methods['to_cti'] = snap(orig_cti)
             ph.opaque_methods['to_omkm_yaml'] = snap(orig_yaml)
             out = I.call_function(m, fn, [], {'phases': ListV([ph]), 'species': ListV(sp), 'reactions': ListV(rx),
@@ -632,26 +634,26 @@ def file_assembly(run, repo):
                 calls = [c_ for c_ in o.calls if c_[0] == kind]
                 final = o.attrs.get('id', o.attrs.get('name'))
                 okc = len(calls) == 1 and calls[0][1] == final
-                if o in beps and not okc and len(calls) == 1:
-                    # the BEP was emitted before it received an id
-                    run.note('%s: BEP relation without a name is emitted with id %r (write_thermo_yaml assigns '
-                             'b_0000 first, write_cti only counts)' % (writer, calls[0][1]), m, fn)
-                    continue
                 run.check(okc, 'DATAFLOW.once', 'io.omkm.' + writer, 'object:' + o.name.rstrip('0123456789') + ksuf,
                           '[%s] %s is emitted %d time(s) with id %s (final id %s)'
                           % (label, o.name, len(calls), [c_[1] for c_ in calls], final), m, fn)
-            # the relations keep the names the user gave; where the writer names the unnamed ones (the YAML writer: the
-            # entry carries the id) the names it hands out are distinct
+            # the relations keep the names the user gave; the unnamed ones are named by the writer (both writers since
+            # 92cab49), every relation under a name of its own, before the phases - which refer to them - are written
             bnames = [b_.attrs.get('name') for b_ in beps]
             if bep_names:
                 run.check(bnames == list(bep_names), 'DATAFLOW.ids', 'io.omkm.' + writer, 'BEP ids given by the user',
                           '[%s] the relations named %s by the user are called %s after writing' % (label, bep_names,
                                                                                                   bnames), m, fn)
-            elif any(x is not None for x in bnames):
+            else:
                 run.check(all(isinstance(x, str) for x in bnames) and len(set(bnames)) == 3, 'DATAFLOW.ids',
-                          'io.omkm.' + writer, 'BEP ids',
+                          'io.omkm.' + writer, 'BEP ids' + (' (user id present)' if user_ids else ''),
                           '[%s] three distinct BEP relations without a name are called %s after writing: every relation '
-                          'needs an id of its own' % (label, bnames), m, fn)
+                          'needs an id of its own' % (label, bnames), m, fn,
+                          sample='[%s] BEP ids %s' % (label, bnames))
+            run.check(bool(seen_bnames) and all(isinstance(x, str) for x in seen_bnames[0]), 'ORDER.ids-before-phases',
+                      'io.omkm.' + writer, 'BEP ids before phases' + (' (user id present)' if user_ids else '') + ksuf,
+                      '[%s] when the phase is written the BEP relations are called %s: an interface names the relations '
+                      'of its reactions, they need their names by then' % (label, seen_bnames[:1]), m, fn)
             if bep_names:
                 continue        # what follows does not depend on the relations
             # the Motz-Wise option reaches the file: as the CTI directive / on every reaction before it is emitted
@@ -688,29 +690,35 @@ def file_assembly(run, repo):
         # notation of the interface (CTI) and of the relation (CTI, YAML) must be reactions / interactions of the file
         from .c07b import named_ids
         import re
-        for user_ids in (False, True):
+        for user_ids, named in itertools.product((False, True), (True, False)):
             I = new_interp(repo)
             D = I.D
             fr = Frame(I, repo.module('pmutt'), {}, None, None)
             # a user id in the spelling the range notation prints (head, '_', four digits); any other spelling is
-            # re-printed with four digits by the entries that refer to it - a defect of the pristine tree
-            # (DEFECT2_C07.md D1), the instance with 'u_7' is not armed
+            # re-printed with four digits by the entries that refer to it (`_get_omkm_range`): that is the known finding
+            # recorded under C18, seen from here (DEFECT2_C07.md D1) - the instance with 'u_7' is not armed
             rx = [marker_obj(I, 'rxn%d' % i, id=('u_0007' if user_ids and i == 1 else None), bep=None) for i in range(4)]
             li = [marker_obj(I, 'int%d' % i, name=('lat_0003' if user_ids and i == 0 else None)) for i in range(2)]
             for o_ in li:
                 o_.missing.add('id')            # a lateral interaction is identified by its name
-            bep = I.construct(repo.cls('pmutt.omkm.reaction.BEP'), [],
-                              {'name': 'bep_a', 'slope': D.sym('bslope'), 'intercept': D.sym('bicpt'),
-                               'direction': 'cleavage', 'descriptor': 'delta_H'}, name='bep_real')
-            if not isinstance(bep, Obj):
-                raise Unsupported('omkm.BEP(...) gives %s for the model relation' % show(bep, 80))
-            members = get_public(I, bep, 'cleavage_reactions')
-            if not isinstance(members, ListV):
-                raise Unsupported('BEP.cleavage_reactions is %s' % show(members, 60))
-            for r_ in rx[1:]:
-                # what SurfaceReaction.__init__ does for a reaction whose transition state is the relation
-                members.items.append(r_)
-                r_.attrs['bep'] = bep
+            # two relations, named by the user or left without a name (the writers then name them): one over the
+            # cleavage steps rxn1..rxn3, one over the synthesis step rxn0
+            real = []
+            for bname, direction, mem in (('bep_a', 'cleavage', rx[1:]), ('bep_b', 'synthesis', rx[:1])):
+                bep = I.construct(repo.cls('pmutt.omkm.reaction.BEP'), [],
+                                  {'name': bname if named else None, 'slope': D.sym('slope_' + bname),
+                                   'intercept': D.sym('icpt_' + bname), 'direction': direction,
+                                   'descriptor': 'delta_H'}, name='real_' + bname)
+                if not isinstance(bep, Obj):
+                    raise Unsupported('omkm.BEP(...) gives %s for the model relation' % show(bep, 80))
+                members = get_public(I, bep, direction + '_reactions')
+                if not isinstance(members, ListV):
+                    raise Unsupported('BEP.%s_reactions is %s' % (direction, show(members, 60)))
+                for r_ in mem:
+                    # what SurfaceReaction.__init__ does for a reaction whose transition state is the relation
+                    members.items.append(r_)
+                    r_.attrs['bep'] = bep
+                real.append((bep, direction, mem))
             spx = [Obj('sp%d' % k, attrs={'name': 'S%d(S)' % k, 'elements': DictV({'H': C(1)}), 'phase': None})
                    for k in range(2)]
             iface = fr.apply(repo.cls('pmutt.omkm.phase.InteractingInterface'), [],
@@ -719,22 +727,31 @@ def file_assembly(run, repo):
                               'interactions': ListV(list(li))}, None)
             out = I.call_function(m, fn, [], {'phases': ListV([iface]), 'reactions': ListV(rx),
                                               'lateral_interactions': ListV(li), 'units': units_obj(I, repo)})
-            label = '%s, real interface and BEP relation, user ids=%s' % (writer, user_ids)
+            label = '%s, real interface and BEP relations (%s), user ids=%s' % (
+                writer, 'named by the user' if named else 'without a name', user_ids)
+            ksuf = (' (user ids present)' if user_ids else '') + ('' if named else ' (BEP relations unnamed)')
             if isinstance(out, Raised):
                 run.fail('DATAFLOW.members', 'io.omkm.' + writer, label, 'raises %s' % out.exc, m,
                          out.node if hasattr(out.node, 'lineno') else fn)
                 continue
             rx_ids = {r_.attrs.get('id') for r_ in rx}
             li_ids = {x_.attrs.get('name') for x_ in li}
-            mem_ids = {r_.attrs.get('id') for r_ in rx[1:]}
-            got = {}
+            bnames = [get_public(I, b_, 'name') for b_, _d, _m in real]
+            bnames = [I.plain(x_) if isinstance(x_, (str, SegStr)) else x_ for x_ in bnames]
+            run.check(all(isinstance(x_, str) for x_ in bnames) and len(set(bnames)) == 2 and
+                      (not named or bnames == ['bep_a', 'bep_b']), 'DATAFLOW.ids', 'io.omkm.' + writer,
+                      'BEP ids, real relations' + ksuf,
+                      '[%s] after writing the two relations are called %s: every relation needs a name of its own, a '
+                      'name given by the user is kept' % (label, bnames), m, fn)
+            got, want = {}, {}
             if writer == 'write_cti':
                 lit = ''.join(s_.text if s_.kind == 'lit' else '\x01' for s_ in I.seg(out).segs) \
                     if isinstance(out, (str, SegStr)) else ''
 
-                def slot(directive, name):
-                    """the ids a keyword of a directive names; None when directive, keyword or list is not there"""
-                    i_ = lit.find(directive + '(')
+                def slot(directive, name, ident=None):
+                    """the ids a keyword of a directive (the one with id=ident when given) names; None when directive,
+                    keyword or list is not there"""
+                    i_ = lit.find('%s(id="%s"' % (directive, ident)) if ident is not None else lit.find(directive + '(')
                     k_ = lit.find(name + '=', i_) if i_ >= 0 else -1
                     if k_ < 0:
                         return None
@@ -745,27 +762,45 @@ def file_assembly(run, repo):
                     return named_ids(I, ListV(re.findall(r'"([^"]*)"', body)))
                 got = {'interface reactions': slot('interacting_interface', 'reactions'),
                        'interface interactions': slot('interacting_interface', 'interactions'),
-                       'BEP cleavage reactions': slot('bep', 'cleavage_reactions'),
-                       'BEP synthesis reactions': slot('bep', 'synthesis_reactions')}
+                       'interface BEP relations': slot('interacting_interface', 'beps')}
                 want = {'interface reactions': rx_ids, 'interface interactions': li_ids,
-                        'BEP cleavage reactions': mem_ids, 'BEP synthesis reactions': set()}
+                        'interface BEP relations': set(bnames)}
+                for (b_, direction, mem), bn_ in zip(real, bnames):
+                    other = 'synthesis' if direction == 'cleavage' else 'cleavage'
+                    got['BEP %s: %s reactions' % (direction, direction)] = slot('bep', direction + '_reactions', bn_)
+                    want['BEP %s: %s reactions' % (direction, direction)] = {r_.attrs.get('id') for r_ in mem}
+                    got['BEP %s: %s reactions' % (direction, other)] = slot('bep', other + '_reactions', bn_)
+                    want['BEP %s: %s reactions' % (direction, other)] = set()
             else:
                 ents = [d_.d['beps'] for d_ in I.dumps if isinstance(d_, DictV) and list(d_.d) == ['beps']]
-                ent = ents[0].items[0] if len(ents) == 1 and isinstance(ents[0], ListV) and len(ents[0]) == 1 and \
-                    isinstance(ents[0].items[0], DictV) else None
-                got = {'BEP cleavage reactions': named_ids(I, ent.d.get('cleavage-reactions')) if ent is not None
-                       else None,
-                       'BEP synthesis reactions': named_ids(I, ent.d.get('synthesis-reactions')) if ent is not None
-                       else None}
-                want = {'BEP cleavage reactions': mem_ids, 'BEP synthesis reactions': set()}
+                ents = [e_ for e_ in ents[0].items if isinstance(e_, DictV)] if len(ents) == 1 and \
+                    isinstance(ents[0], ListV) else []
+                phs = [d_.d['phases'] for d_ in I.dumps if isinstance(d_, DictV) and list(d_.d) == ['phases']]
+                ph_ent = phs[0].items[0] if len(phs) == 1 and isinstance(phs[0], ListV) and len(phs[0]) == 1 and \
+                    isinstance(phs[0].items[0], DictV) else None
+                # the YAML interface entry declares its relations wholesale; the beps section carries them by id
+                got['interface BEP relations'] = I.plain(ph_ent.d.get('beps')) if ph_ent is not None else None
+                want['interface BEP relations'] = 'all'
+                got['BEP entries'] = sorted(str(I.plain(e_.d.get('id'))) for e_ in ents)
+                want['BEP entries'] = sorted(str(x_) for x_ in bnames)
+                for (b_, direction, mem), bn_ in zip(real, bnames):
+                    other = 'synthesis' if direction == 'cleavage' else 'cleavage'
+                    mine = [e_ for e_ in ents if I.plain(e_.d.get('id')) == bn_]
+                    ent = mine[0] if len(mine) == 1 else None
+                    got['BEP %s: %s reactions' % (direction, direction)] = \
+                        named_ids(I, ent.d.get(direction + '-reactions')) if ent is not None else None
+                    want['BEP %s: %s reactions' % (direction, direction)] = {r_.attrs.get('id') for r_ in mem}
+                    got['BEP %s: %s reactions' % (direction, other)] = \
+                        named_ids(I, ent.d.get(other + '-reactions')) if ent is not None else None
+                    want['BEP %s: %s reactions' % (direction, other)] = set()
             for what, w_ in want.items():
-                run.check(got.get(what) == w_, 'DATAFLOW.members', 'io.omkm.' + writer,
-                          '%s name ids of the file%s' % (what, ' (user ids present)' if user_ids else ''),
-                          '[%s] the %s are named as %s; the file gives its reactions the ids %s and its interactions %s '
-                          '(members %s): an entry must name ids that exist in the file'
-                          % (label, what, sorted(got[what]) if isinstance(got.get(what), set) else got.get(what),
-                             sorted(rx_ids, key=str), sorted(li_ids, key=str), sorted(w_, key=str)), m, fn,
-                          sample='[%s] %s == %s' % (label, what, sorted(w_, key=str)))
+                g_ = got.get(what)
+                run.check(g_ == w_, 'DATAFLOW.members', 'io.omkm.' + writer, '%s name ids of the file%s' % (what, ksuf),
+                          '[%s] the %s are named as %s; the file gives its reactions the ids %s, its interactions %s and '
+                          'its BEP relations %s (expected here: %s): an entry must name ids that exist in the file'
+                          % (label, what, sorted(g_, key=str) if isinstance(g_, set) else g_, sorted(rx_ids, key=str),
+                             sorted(li_ids, key=str), bnames, sorted(w_, key=str) if isinstance(w_, set) else w_), m, fn,
+                          sample='[%s] %s == %s' % (label, what, sorted(w_, key=str) if isinstance(w_, set) else w_))
         # the temperature the file is written for is the temperature every reaction is evaluated at (its barrier is
         # a Gibbs energy): the reaction emitters are handed exactly the writer's T
         I = new_interp(repo)
